@@ -3,14 +3,7 @@ CONSTANTS
   Depth = "thorough"
   OverflowChecks = FALSE
   Emit = TRUE
-  PanicSites = {"armor.rs::decode#range-start", "armor.rs::decode#range-end",
-                "types.rs::try_decrypt_payload#range-end", "types.rs::try_decrypt_payload#split_off",
-                "types.rs::try_decrypt_payload#unreachable",
-                "v4_bin.rs::ProofWrap::read#unwrap",
-                "ser.rs::option_dalek_sig_serde::deserialize#range-end", "ser.rs::dalek_sig_serde::deserialize#range-end",
-                "grin_keychain::BlindingFactor::from_hex#unwrap", "grin_keychain::Identifier::from_hex#unwrap",
-                "grin_util::from_hex#char-boundary", "lmdb.rs::get_stored_tx#unwrap",
-                "ed25519::Signature::new#invalid-signature", "grin_secp256k1zkp::RangeProof::visit_seq#index"}
+  PanicSites <- PinnedPanicSites
 SPECIFICATION Spec
 INVARIANT TypeOK
 INVARIANT Report_Total
